@@ -433,3 +433,57 @@ class Matrix:
             chk.expect(self.value_ser.get(X) == ser, f"value_ser:{X}", f"idl_serialize: IDLValue::{X} should call {ser}, found {self.value_ser.get(X)}")
         chk.expect(set(self.value_ser.get("Service", [])) == {"serialize_principal"}, "value_ser:Service",
                    f"IDLValue::Service must be written as a principal reference, found {self.value_ser.get('Service')}")
+
+
+# --------------------------------------------------------------------------- format!() templates
+def fmt_template(fmt_call):
+    """decode a `format!` expansion (`alloc::fmt::format(core::fmt::Arguments::new(<template bytes>, &args))`) into
+    [('lit', s) | ('arg', expr)]; None when the encoding is not understood (caller fails closed)"""
+    tmpl = None
+    for n in walk(fmt_call):
+        if n.get("k") == "call" and (callee(n) or "").startswith("core::fmt::Arguments::") and n.get("args"):
+            v = lit_value(n["args"][0])
+            if isinstance(v, (bytes, str)):
+                tmpl = v
+                break
+    if tmpl is None:
+        return None
+    # the argument expressions: first `let args = (&a, &b, ..)` tuple
+    argv = []
+    for s in nodes(fmt_call, "slet"):
+        ini = s.get("init")
+        if isinstance(ini, dict) and ini.get("k") == "tup":
+            argv = [peel(x) for x in ini["es"]]
+            break
+    out = []
+    if isinstance(tmpl, str):        # older encoding: literal pieces with {} inline
+        parts = tmpl.split("{}")
+        for i, p in enumerate(parts):
+            if p:
+                out.append(("lit", p))
+            if i + 1 < len(parts):
+                if i >= len(argv):
+                    return None
+                out.append(("arg", argv[i]))
+        return out
+    i = 0
+    ai = 0
+    b = bytes(tmpl)
+    while i < len(b):
+        x = b[i]
+        if x == 0:
+            break
+        if x < 0x80:
+            out.append(("lit", b[i + 1:i + 1 + x].decode("utf-8", "replace")))
+            i += 1 + x
+        elif x == 0xC0:
+            if ai >= len(argv):
+                return None
+            out.append(("arg", argv[ai]))
+            ai += 1
+            i += 1
+        else:
+            return None
+    return out
+
+
